@@ -993,6 +993,70 @@ static void run_hist(uint64_t seed, long c, int maxdim)
 	}
 	if (h.gen_fail != 0)
 	    break;
+	/*
+	 * Hole scenarios (two cases out of three): delete a calibration that
+	 * is not the last one, then add (a) a new name -- it may fill the
+	 * hole --, (b) the name of a calibration stored ABOVE the hole -- it
+	 * must be replaced in place and the hole stays --, (c) the name of one
+	 * stored below; possibly a second hole; then save and load.
+	 */
+	if (c % 3 != 0) {
+	    int holes = 1 + (int)((c / 3) % 2);
+
+	    for (int hno = 0; hno < holes && h.gen_fail == 0; ++hno) {
+		int end = LIB(vnacal_get_calibration_end(h.vcp));
+		int live[16], nl = 0, victim, variant;
+		const char *nm;
+
+		for (int ci = 0; ci < end && nl < 16; ++ci) {
+		    if (LIB(vnacal_get_name(h.vcp, ci)) != NULL)
+			live[nl++] = ci;
+		}
+		if (nl < 2)
+		    break;
+		victim = live[vt_below(&h.rng, nl - 1)];	/* not the last */
+		ev_delete(&h, victim);
+		variant = (int)((c / 6 + hno) % 3);
+		if (variant == 0) {
+		    int sid, dup;
+
+		    do {
+			sid = name_pool[vt_below(&h.rng, N_NAMES)];
+			dup = 0;
+			for (int k = 0; k < nused; ++k)
+			    dup |= used_names[k] == sid;
+		    } while (dup);
+		    if (nused < 8)
+			used_names[nused++] = sid;
+		    ev_add(&h, sid, (int)(c + 5 + hno), (int)(c / 4 + hno));
+		} else {
+		    /* a live name above (variant 1) or below (2) the hole */
+		    int pick = -1;
+
+		    for (int k = 0; k < nl; ++k) {
+			if (variant == 1 ? live[k] > victim : live[k] < victim)
+			    pick = live[k];
+			if (pick >= 0 && variant == 1)
+			    break;
+		    }
+		    if (pick < 0) {
+			for (int k = 0; k < nl; ++k) {
+			    if (live[k] != victim)
+				pick = live[k];
+			}
+		    }
+		    nm = LIB(vnacal_get_name(h.vcp, pick));
+		    for (int k = 0; nm != NULL && k < CF_NPOOL; ++k) {
+			if (strcmp(nm, cf_pool[k]) == 0) {
+			    ev_add(&h, k, (int)(c + 2 + hno), (int)(c / 5 + hno));
+			    break;
+			}
+		    }
+		}
+	    }
+	    if (h.gen_fail != 0)
+		break;
+	}
 	/* properties on every root now and then */
 	if (vt_below(&h.rng, 2) == 0) {
 	    int end = LIB(vnacal_get_calibration_end(h.vcp));
